@@ -15,9 +15,11 @@ import (
 	"fmt"
 	"io"
 	"math/rand"
+	"os"
 	"sort"
 	"strconv"
 	"strings"
+	"syscall"
 
 	oe "github.com/ossrs/go-oryx-lib/errors"
 	"github.com/ossrs/go-oryx-lib/flv"
@@ -723,8 +725,120 @@ func c08RtmpWriteSweeps(c *h.Ctx, ms []rmsg, wire []byte, cum []int, calls []int
 	}
 }
 
+// c08Transient: the error of a transport whose deadline expired, as a net.Conn reports it (a timeout, "temporary").
+type c08Transient struct{}
+
+func (c08Transient) Error() string   { return "i/o timeout (test)" }
+func (c08Transient) Timeout() bool   { return true }
+func (c08Transient) Temporary() bool { return true }
+
+// c08OnceReader delivers b[:k] (in pieces of at most max bytes), fails ONCE with err, then goes on delivering the rest
+// and ends with io.EOF — a read deadline that expired and was re-armed, an interrupted system call.
+type c08OnceReader struct {
+	b      []byte
+	k, max int
+	err    error
+	failed bool
+	pos    int
+}
+
+func (s *c08OnceReader) Read(p []byte) (int, error) {
+	if s.pos == s.k && !s.failed {
+		s.failed = true
+		return 0, s.err
+	}
+	if s.pos >= len(s.b) {
+		return 0, io.EOF
+	}
+	n := len(p)
+	if s.max > 0 && n > s.max {
+		n = s.max
+	}
+	lim := len(s.b)
+	if !s.failed {
+		lim = s.k
+	}
+	if n > lim-s.pos {
+		n = lim - s.pos
+	}
+	copy(p, s.b[s.pos:s.pos+n])
+	s.pos += n
+	return n, nil
+}
+
+// c08RtmpTransient: a failure of the transport that the transport itself calls temporary is still a failure of the
+// operation in progress: ReadMessage / ExpectMessage / ExpectPacket return it (cause kept), they do not carry on with a
+// stream of which they have consumed an unknown part.
+func c08RtmpTransient(c *h.Ctx) {
+	r := c.R
+	var wire bytes.Buffer
+	w := rtmp.NewProtocol(&h.RW{Writer: &wire})
+	var ends []int
+	put := func(pk rtmp.Packet) { w.WritePacket(pk, 1); ends = append(ends, wire.Len()) }
+	wa := rtmp.NewWindowAcknowledgementSize()
+	wa.AckSize = 2500000
+	put(wa)
+	sc := rtmp.NewSetChunkSize()
+	sc.ChunkSize = 50
+	put(sc)
+	put(rtmp.NewConnectAppPacket())
+	put(wa)
+	cs := rtmp.NewCreateStreamPacket()
+	cs.TransactionID = 4
+	put(cs)
+	put(wa)
+	all := wire.Bytes()
+	errs := []error{c08Transient{}, syscall.EAGAIN, os.ErrDeadlineExceeded, syscall.EINTR}
+	step := c.N(3, 1)
+	for k := 0; k < len(all); k += step {
+		for ei, e := range errs {
+			for variant := 0; variant < 3; variant++ {
+				if !c.Thorough() && (k+ei+variant)%3 != 0 {
+					continue
+				}
+				rd := &c08OnceReader{b: all, k: k, err: e, max: r.Pick(0, 1, 5, 64)}
+				p := rtmp.NewProtocol(&h.RW{Reader: rd, Writer: io.Discard})
+				var err error
+				nOK := 0
+				st := h.Safe(func() string {
+					switch variant {
+					case 0:
+						for i := 0; i < len(ends)+2 && err == nil; i++ {
+							if _, err = p.ExpectMessage(); err == nil {
+								nOK++
+							}
+						}
+					case 1:
+						_, err = p.ExpectMessage(rtmp.MessageType(200)) // never comes
+					default:
+						var pkt *rtmp.PlayPacket // never comes
+						_, err = p.ExpectPacket(&pkt)
+					}
+					return "ok"
+				})
+				whole := 0
+				for _, x := range ends {
+					if x <= k {
+						whole++
+					}
+				}
+				in := fmt.Sprintf("rtmp expect variant %d: the transport delivers %d of %d bytes (pieces of %d), fails ONCE with %T %q, then delivers the rest; messages end at %v", variant, k, len(all), rd.max, e, e.Error(), ends)
+				cause := error(nil)
+				if err != nil {
+					cause = oe.Cause(err)
+				}
+				ok := st == "ok" && err != nil && cause == e && (variant != 0 || nOK == whole)
+				c.Hold(ok, "rtmp.transient_failure_is_returned", in, fmt.Sprintf("%s: %d messages, then error %v (cause %v)", st, nOK, c08ErrStr(err), cause), fmt.Sprintf("%d messages (variant 0), then an error whose cause is the transport's", whole))
+				c08Runs["rtmp transient faults"]++
+			}
+		}
+	}
+	c.Case("rtmp/read/transient", fmt.Sprintf("%d bytes, %d messages, 4 error kinds, 3 entry points", len(all), len(ends)), true)
+}
+
 func c08Rtmp(c *h.Ctx) {
 	r := c.R
+	c08RtmpTransient(c)
 	nsess := c.N(40, 400)
 	for s := 0; s < nsess; s++ {
 		ms := c08Session(r, c.N(700, 2500))
@@ -1004,6 +1118,8 @@ func c08FlvMux(w io.Writer, hv, ha bool, tags []c08Tag) (hdrOK bool, nOK int, er
 	return
 }
 
+var c08DemuxN int
+
 // c08FlvDemux reads header + tags through the real demuxer until the first error.
 func c08FlvDemux(rd io.Reader) (hdr string, got []string, err error, status string) {
 	var held [][]byte
@@ -1021,7 +1137,17 @@ func c08FlvDemux(rd io.Reader) (hdr string, got []string, err error, status stri
 			return "stopped"
 		}
 		hdr = fmt.Sprintf("%d %s %s", v, b01(hv), b01(ha))
+		c08DemuxN++
 		for i := 0; i < 1000; i++ {
+			// every other run the stream is handed from one demuxer object to the next (after the header, then after
+			// every second tag): a demuxer has taken from the transport what it returned and nothing more, so whoever
+			// reads the stream next finds it positioned at the next item
+			if c08DemuxN%2 == 0 && i%2 == 0 {
+				if d, e = flv.NewDemuxer(rd); e != nil {
+					err = e
+					return "newdemuxer"
+				}
+			}
 			ty, size, ts, e := d.ReadTagHeader()
 			if e != nil {
 				err = e
